@@ -151,7 +151,10 @@ class ExprMixin:
             if self.kind_of(a) == "str" or self.kind_of(b) == "str":
                 s, k = (a, b) if self.kind_of(a) == "str" else (b, a)
                 f = self.th.uf("str_repeat", self.th.Str, Int, self.th.Str)
-                return Sym(f(self.z(s), self.zi(k)), "str")
+                r = f(self.z(s), self.zi(k))
+                if isinstance(s, str):       # len(s * k) == len(s) * max(k, 0) for a literal s
+                    self.pc.append(self.th.length(r) == z3.If(self.zi(k) > 0, len(s) * self.zi(k), 0))
+                return Sym(r, "str")
             return self.wrap(self.zi(a) * self.zi(b), "int")
         if isinstance(op, ast.Div):
             return self.unit.path_join(self, a, b)
